@@ -290,3 +290,154 @@ func TestC18(t *testing.T) {
 	})
 	_ = os.Getenv
 }
+
+// ---- in-process resolution: the Config value every analyzer consumes -----------------
+
+var c18EnvNames = []string{"GOGREEMENT_SCAN_TESTS", "GOGREEMENT_EXCLUDE_PATHS", "GOGREEMENT_EXCLUDE_CHECKS"}
+
+// c18Inproc sets the process environment as the case says, runs the repository's
+// own flag set + resolution code and compares the resulting Config with the
+// restated resolution. Returns "" when they agree, "SKIP ..." when the case is
+// outside the domain (a flag value the flag package rejects, NUL in a variable).
+func c18Inproc(c c18Case) string {
+	os.Unsetenv("GOGREEMENT_ENV_ONLY")
+	for i, o := range []optState{c.ScanTests, c.ExcludePaths, c.ExcludeChecks} {
+		if o.Env == nil {
+			os.Unsetenv(c18EnvNames[i])
+			continue
+		}
+		if strings.ContainsRune(*o.Env, 0) {
+			return "SKIP NUL in environment value"
+		}
+		if err := os.Setenv(c18EnvNames[i], *o.Env); err != nil {
+			return "SKIP " + err.Error()
+		}
+	}
+	defer func() {
+		for _, n := range c18EnvNames {
+			os.Unsetenv(n)
+		}
+	}()
+	scanFlag := c.ScanTests.Flag
+	if c.ScanTests.BareBool {
+		scanFlag = sp("true")
+	}
+	if scanFlag != nil {
+		if _, ok := refFlagBool(*scanFlag); !ok {
+			return "SKIP boolean flag value the flag package rejects"
+		}
+	}
+	cfg, err := engine.ParseConfig(scanFlag, c.ExcludePaths.Flag, c.ExcludeChecks.Flag)
+	if err != nil {
+		return "SKIP " + err.Error()
+	}
+	scan, paths, checks := c18Resolve(c)
+	var probs []string
+	if cfg.ScanTests != scan {
+		probs = append(probs, fmt.Sprintf("scan-tests resolved to %v, expected %v", cfg.ScanTests, scan))
+	}
+	if fmt.Sprintf("%q", cfg.ExcludePaths) != fmt.Sprintf("%q", paths) && !(len(cfg.ExcludePaths) == 0 && len(paths) == 0) {
+		probs = append(probs, fmt.Sprintf("exclude-paths resolved to %q, expected %q", cfg.ExcludePaths, paths))
+	}
+	if fmt.Sprintf("%q", cfg.ExcludeChecks) != fmt.Sprintf("%q", checks) && !(len(cfg.ExcludeChecks) == 0 && len(checks) == 0) {
+		probs = append(probs, fmt.Sprintf("exclude-checks resolved to %q, expected %q", cfg.ExcludeChecks, checks))
+	}
+	return strings.Join(probs, "; ")
+}
+
+func init() {
+	replayers["c18inproc"] = func(data json.RawMessage) string {
+		var c c18Case
+		if err := json.Unmarshal(data, &c); err != nil {
+			return "bad replay: " + err.Error()
+		}
+		if r := c18Inproc(c); !strings.HasPrefix(r, "SKIP") {
+			return r
+		}
+		return ""
+	}
+}
+
+// TestC18Inproc: the same grid, thousands of configurations, observed at the
+// Config value (no process per case).
+func TestC18Inproc(t *testing.T) {
+	const id = "C18"
+	boolEnv := []string{"true", "TRUE", "True", "tRuE", " true ", "\ttrue\n", "1", " 1", "t", "T", "yes", "YES", " Yes ", "on", "On", "ON", "oN", "yEs", "y", "Y", "2", "0", "false", "FALSE", "off", "no", " ", "enabled", "tru", "01", "truee", "ye s", "+1", "1.0", " true", "TrUe", "trUE ", "\u00a0true"}
+	boolFlag := []string{"true", "false", "1", "0", "t", "f", "T", "F", "TRUE", "FALSE", "True", "False"}
+	item := rapid.OneOf(
+		rapid.SampledFrom([]string{"testdata", "gen_", "vendorx", "IMM", "imm01", "Ctor", "ALL", "all", "tonl02", "", " ", "\t", "a b", "é", "x/y.go", "*", "im", "I", "IMM0", "ZZZ9"}),
+		rapid.StringMatching(`[ \t]{0,2}[A-Za-z0-9_./-]{0,6}[ \t]{0,2}`),
+	)
+	list := rapid.Custom(func(rt *rapid.T) string {
+		n := rapid.IntRange(0, 5).Draw(rt, "nItems")
+		var parts []string
+		for i := 0; i < n; i++ {
+			parts = append(parts, item.Draw(rt, "item"))
+		}
+		return strings.Join(parts, rapid.SampledFrom([]string{",", ",", ", ", " ,", ",,"}).Draw(rt, "sep"))
+	})
+	anyStr := rapid.StringOfN(rapid.RuneFrom([]rune("abcIMTOPKGLtrue10,; \t./_-*%$=\"'\\éß日\n")), 0, 24, -1)
+	opt := func(rt *rapid.T, label string, vals *rapid.Generator[string]) optState {
+		var o optState
+		switch rapid.IntRange(0, 2).Draw(rt, label+"Flag") {
+		case 1:
+			o.Flag = sp("")
+		case 2:
+			o.Flag = sp(vals.Draw(rt, label+"FlagVal"))
+		}
+		switch rapid.IntRange(0, 3).Draw(rt, label+"Env") {
+		case 1:
+			o.Env = sp("")
+		case 2:
+			o.Env = sp(vals.Draw(rt, label+"EnvVal"))
+		case 3:
+			o.Env = sp(anyStr.Draw(rt, label+"EnvAny"))
+		}
+		return o
+	}
+	rapid.Check(t, func(rt *rapid.T) {
+		// the process-per-case test shares -rapid.checks with this one; a case here
+		// costs microseconds, so each rapid case judges a batch of configurations
+		for batch, n := 0, rapid.IntRange(1, 80).Draw(rt, "batch"); batch < n; batch++ {
+			c18InprocOne(rt, id, opt, list, boolFlag, boolEnv, anyStr)
+		}
+	})
+}
+
+func c18InprocOne(rt *rapid.T, id string, opt func(*rapid.T, string, *rapid.Generator[string]) optState, list *rapid.Generator[string], boolFlag, boolEnv []string, anyStr *rapid.Generator[string]) {
+	{
+		var c c18Case
+		c.ExcludePaths = opt(rt, "paths", list)
+		c.ExcludeChecks = opt(rt, "checks", list)
+		switch rapid.IntRange(0, 2).Draw(rt, "scanFlag") {
+		case 1:
+			c.ScanTests.BareBool = true
+		case 2:
+			c.ScanTests.Flag = sp(rapid.SampledFrom(boolFlag).Draw(rt, "scanFlagVal"))
+		}
+		switch rapid.IntRange(0, 3).Draw(rt, "scanEnv") {
+		case 1:
+			c.ScanTests.Env = sp("")
+		case 2:
+			c.ScanTests.Env = sp(rapid.SampledFrom(boolEnv).Draw(rt, "scanEnvVal"))
+		case 3:
+			c.ScanTests.Env = sp(anyStr.Draw(rt, "scanEnvAny"))
+		}
+		c.Driver = "inproc"
+		why := c18Inproc(c)
+		if strings.HasPrefix(why, "SKIP") {
+			return
+		}
+		ev.Eval(id)
+		b, _ := json.Marshal(c)
+		if why != "" {
+			violation(rt, id, "c18inproc", "inproc", len(b), c, "configuration %s: %s", string(b), why)
+		}
+		ev.Class(id, "in-process resolution (Config value)")
+		given := func(o optState, bare bool) bool { return (o.Flag != nil || bare) && o.Env != nil }
+		if given(c.ScanTests, c.ScanTests.BareBool) || given(c.ExcludePaths, false) || given(c.ExcludeChecks, false) ||
+			(c.ExcludePaths.Env != nil && *c.ExcludePaths.Env == "") || (c.ExcludeChecks.Env != nil && *c.ExcludeChecks.Env == "") {
+			ev.NonTrivial(id, ev.Hash("inproc", string(b)))
+		}
+	}
+}
